@@ -764,7 +764,7 @@ def rand_host(rng):
     return rng.bytes(rng.range(0, 20), b"ab.-")
 
 
-def q_line(rng, force_edns=None):
+def q_line(rng, force_edns=None, small_ok=True):
     api = rng.choice(["a35", "a35", "a96", "aaaa96", "p35", "p496", "p696", "host96:%d" % rng.choice([1, 28, 12, 255, 0, 65535, 65536 + 28])])
     qid = rng.choice([0, 1, 0x1234, 65535, rng.below(65536)])
     edns = rng.choice([0, 0, 0, 0, 0, 0, 0, -1, 1, 512, 4096, 16383, 16384, 65535, 100000]) if force_edns is None else force_edns
@@ -776,7 +776,10 @@ def q_line(rng, force_edns=None):
         arg = rand_host(rng)
     host = q_parse(["q", api, str(qid), str(edns), "0", hx(arg)])[0]
     need = query_size(host, edns)
+    # a buffer that is too small ends in assert() = one harness restart: kept rare (small_ok)
     k = rng.below(10)
+    if k == 9 and not small_ok:
+        k = 0
     sz = need if k < 3 else rng.choice([512, need + 1, need + 100, 6000]) if k < 9 else rng.choice([0, 11, 12, 13, max(0, need - 30)])
     # the window where the name fits but the four type/class octets (or the OPT record) do not is a violated precondition
     # of the packers (they store before they assert): not generated
@@ -851,7 +854,7 @@ def cases(rng, tier):
     # --- query builders and header pack/unpack
     r = rng.fork("pack")
     for i in range(4000 if thorough else 500):
-        yield q_line(r)
+        yield q_line(r, small_ok=(i % (8 if thorough else 4) == 0))
     for i in range(300 if thorough else 60):
         yield q_line(r, force_edns=r.choice([1, 512, 1232, 4096, 16383, 16384, 65535]))
     for i in range(2000 if thorough else 200):
